@@ -14,7 +14,7 @@ from __future__ import annotations
 import ast
 from typing import Dict, List, Optional, Set, Tuple
 
-from ..astutil import txt
+from ..astutil import expand_locals, txt
 from ..confinement import handler_functions, report_bypass, report_function, run_confinement
 from ..model import AnalysisError, FunctionInfo, walk_local
 from ..rcross import check_cross
@@ -62,52 +62,25 @@ def collinear_branch(fi: FunctionInfo) -> Optional[ast.If]:
 
 
 def r12_endpoint_candidates(ctx, res):
+    """every end point of each 1-D operand is a candidate of the collinear case (origin families: the rule does not
+    depend on whether the code uses explicit ifs, a loop over the end points, local flags or a private helper)"""
+    from ..origins import check_families
+
     hb = handler_bindings(ctx)
     n = 0
     for fi in handlers_of(ctx, lambda t: t[0] in ("Segment", "HalfLine") and t[1] in ("Segment", "HalfLine")):
         ta, tb = hb[fi.name]
         a, b = fi.params[:2]
-        br = collinear_branch(fi)
-        if br is None:
-            raise AnalysisError("%s: no collinear branch `%s.line == %s.line`" % (fi.where(), a, b))
-        # candidates present in the collinear branch:  if X.e in Y: S.add(X.e)
-        present: Set[Tuple[str, str, str]] = set()
-        fams = []
-        for st in br.body:
-            if isinstance(st, ast.If) and isinstance(st.test, ast.Compare) and len(st.test.ops) == 1 \
-                    and isinstance(st.test.ops[0], ast.In):
-                e, y = st.test.left, st.test.comparators[0]
-                adds = [c for s2 in st.body for c in ast.walk(s2) if isinstance(c, ast.Call) and isinstance(c.func, ast.Attribute)
-                        and c.func.attr == "add" and c.args and txt(c.args[0]) == txt(e)]
-                if adds and isinstance(e, ast.Attribute) and isinstance(e.value, ast.Name) and isinstance(y, ast.Name):
-                    present.add((e.value.id, e.attr, y.id))
-                    fams.append(st)
-                rets = [s2 for s2 in st.body if isinstance(s2, ast.Return) and s2.value is not None and txt(s2.value) == txt(e)]
-                if rets and isinstance(e, ast.Name) and isinstance(y, ast.Name):
-                    present.add((e.id, "<whole>", y.id))
-        for X, tX, Y in ((a, ta, b), (b, tb, a)):
+        required = []
+        for X, tX in ((a, ta), (b, tb)):
             for f in point_fields(ctx, tX):
-                n += 1
-                ok = (X, f, Y) in present
-                res.ob("R1.2", fi.where(br), "%s: candidate %s.%s in %s" % (fi.short, X, f, Y), ok,
-                       "`if %s.%s in %s: add` present in the collinear branch" % (X, f, Y) if ok else "candidate missing")
-                if not ok:
-                    res.violation("R1.2", fi, br,
-                                  "collinear branch of %s never offers the end point %s.%s as a candidate (guarded by `%s.%s in %s`): "
-                                  "nested / overlapping configurations lose part of the overlap" % (fi.short, X, f, X, f, Y),
-                                  construct="%s: candidate %s.%s" % (fi.short, X, f))
-        if fams:
-            n += report_bypass(ctx, res, fi, "R1.2", fams, br.body, "end-point candidates of the collinear branch")
+                required.append("%s.%s" % (X, f))
+        exempt = ()
         if ta == "HalfLine" and tb == "HalfLine":
-            for X, Y in ((a, b), (b, a)):
-                n += 1
-                ok = (X, "<whole>", Y) in present
-                res.ob("R1.2", fi.where(br), "%s: `%s in %s` returns %s" % (fi.short, X, Y, X), ok,
-                       "whole-operand return present" if ok else "missing")
-                if not ok:
-                    res.violation("R1.2", fi, br, "collinear half-lines: the case `%s in %s` (result is the whole half-line %s) is not "
-                                  "handled" % (X, Y, X), construct="%s: whole-operand %s" % (fi.short, X))
-    ctx.require(res, "R1.2", n, 14, "end-point candidates")
+            required += [a, b]  # nested half-lines: the whole operand is the answer
+            exempt = (a, b)
+        n += check_families(ctx, res, "R1.2", fi, required, "end points of the operands in the collinear case", exempt_bypass=exempt)
+    ctx.require(res, "R1.2", n, 12, "end-point candidate obligations")
 
 
 KIND = {"dv": "tangent", "vector": "tangent", "n": "normal"}
@@ -133,7 +106,7 @@ def r13_kernel_guards(ctx, res):
             if set(map(str, tl)) != {"Vector"} or set(map(str, tr)) != {"Vector"}:
                 continue
             n += 1
-            U, V = den.left, den.right
+            U, V = expand_locals(fi.node, den.left, fi.params), expand_locals(fi.node, den.right, fi.params)
             stmt = d
             while id(stmt) in par and not isinstance(stmt, ast.stmt):
                 stmt = par[id(stmt)]
